@@ -161,3 +161,20 @@ Proof. exact KV.Proofs.WaveEvalSrcProofs.WaveCaptureCpuSrcProofs.capture_source_
 Theorem C13_capture_gpu_source_is_model : forall tcap w,
   WaveCaptureGpuSrc.capture_src tcap w = KV.Proofs.WaveEvalSrcProofs.WaveCaptureGpuSrcProofs.model_result w tcap.
 Proof. exact KV.Proofs.WaveEvalSrcProofs.WaveCaptureGpuSrcProofs.capture_source_is_model. Qed.
+
+(** DRIVER CODE from the source text (Gen/WaveDriversSrc.v, translate/gen_wave_drivers.py; see Properties/C06.v): the accumulation
+    wrapper of the GPU path (cuda.atomic.add in wave_eval_gpu) adds nrise * a_wr + nfall * a_wf of the model step to abuf[a_loc] of
+    the thread's own lane, and the write-back of wave_capture_gpu stores the model's eight capture values in s[3..10] *)
+From KV Require Import Model.WaveDrvPrelude Gen.WaveDriversSrc.
+From KV Require Proofs.WaveDriversProofs.
+Theorem C13_driver_accumulate_is_model : forall so ops D seed op_start n_ops sim_start n_sims x y o a L,
+  x < n_sims -> y < n_ops -> nth (op_start + y) ops [] = KV.Proofs.WaveDriversProofs.op_row o a ->
+  KV.Proofs.WaveDriversProofs.out_cap_ok so (l_c L) o ->
+  WaveEvalGpuSrc.inst_src ops (so_locs so) (KV.Proofs.WaveDriversProofs.caps_z so) D (Z.of_nat op_start) (Z.of_nat (op_start + n_ops))
+    (Z.of_nat sim_start) (Z.of_nat (sim_start + n_sims)) seed (Z.of_nat x) (Z.of_nat y) L
+  = KV.Proofs.WaveDriversProofs.lane_eval_step so D seed o a L.
+Proof. exact KV.Proofs.WaveDriversProofs.eval_gpu_inst_is_model. Qed.
+Theorem C13_driver_capture_is_model : forall so nsims tcap x y L, x < nsims ->
+  WaveCaptureGpuDrvSrc.inst_src (so_locs so) (KV.Proofs.WaveDriversProofs.caps_z so) tcap (Z.of_nat (so_nlines so + 3 + so_slen so))
+    (Z.of_nat nsims) (Z.of_nat x) (Z.of_nat y) L = KV.Proofs.WaveDriversProofs.capture_step so tcap y L.
+Proof. exact KV.Proofs.WaveDriversProofs.capture_gpu_inst_is_model. Qed.
